@@ -398,6 +398,66 @@ def rule_keyword_space(ck, facts):
     ck.floor(R, "keyword_arms", n, 5)
 
 
+def rule_list_items(ck, facts):
+    R = "C14.list-items"
+    ck.rule(R, "a printer loop that skips the comma tokens of a list and re-inserts separators itself delimits the items by those commas: a child is appended to the item under construction, and an item is only closed (pushed) in the comma arm or after the loop — pushing one item per child invents separators inside `x:float` or `g = 2.0`")
+    from ..cfg import natural_loops
+    fmt = facts.crate(FMT)
+    n = 0
+    for f in fmt.fns:
+        if f.kind == "promoted" or "cst_print" not in f.path or "::tests" in f.path:
+            continue
+        cov = cover.coverage(facts, f, TK)
+        if not cov or "Comma" not in cov.primary_handled() or cov.arm_target("Comma") is None:
+            continue
+        if not any((callee(t) or "").split("::")[-1] == "intersperse" for _, t in f.calls()):
+            continue
+        loops = natural_loops(f)
+        tb = cov.arm_target("Comma")
+        inner = [l for l in loops if tb in l[1]]
+        if not inner:
+            continue
+        h, body = min(inner, key=lambda l: len(l[1]))
+        stop = [cov.primary.block, h]
+        comma_region = set()
+        for v2 in cov.primary_handled():
+            if v2 in getattr(cov, "catchall", ()) or cov.arm_target(v2) is None:
+                continue
+            comma_region |= set(reachable(f, cov.arm_target(v2), stop=stop))  # arms of explicit delimiter tokens
+        pushes = [(b, t) for b, t in f.calls() if (callee(t) or "").split("::")[-1] == "push" and "Vec" in (callee(t) or "")]
+        n += 1
+        # a push outside the comma arm is item-aware if some test of the child (a discriminant / kind comparison
+        # other than the token-kind dispatch itself) controls it; a push that only depends on plain flags is not
+        from ..cfg import DefIndex, dominators
+        dom = dominators(f)
+        di = DefIndex(f)
+
+        def item_aware(b):
+            for d in dom.get(b, ()):
+                if d == b or d not in body or d == cov.primary.block or f.term(d)[KIND] != "switch":
+                    continue
+                op = f.term(d)[4]
+                if op[0] not in ("cp", "mv"):
+                    continue
+                r = di.resolve(op)
+                if r[0] == "rv" and r[1][5][0] == "disc":
+                    ty = r[1][5][2]
+                    if "GreenNode" in ty:
+                        continue  # token-or-node test: says nothing about which item the child belongs to
+                    return True
+                if r[0] == "call":
+                    return True
+            return False
+
+        bad = [t for b, t in pushes if b in body and b not in comma_region and not item_aware(b)]
+        key = "items|%s" % f.short.split("::")[-1]
+        if not bad:
+            ck.ok(R, key, {"fn": f.short, "item_pushes": len(pushes)})
+        else:
+            ck.bad(R, key, "%s skips the list's comma tokens and inserts its own separators, but closes an item for every child instead of at the commas: a typed parameter or a parameter with a default value (several children) gets separators inside it (`fn f(x:float, g = 2.0)` is printed `fn f(x, :float, g, =2.0)`)" % f.short, f.where(bad[0]))
+    ck.floor(R, "comma_skipping_list_printers", n, 1)
+
+
 def run(ck, facts, tier):
     pm = ParserModel(facts)
     ck.floor("C14.anchor", "fmt_bodies", len(facts.crate(FMT).fns), 100)
@@ -407,6 +467,7 @@ def run(ck, facts, tier):
     rule_no_postprocess(ck, facts)
     rule_token_text(ck, facts)
     rule_keyword_space(ck, facts)
+    rule_list_items(ck, facts)
     from . import c13
 
     c13.rule_trivia(ck, facts, loss=False)  # the overwrite clause: trivia the formatter never gets to see
